@@ -71,7 +71,11 @@ fn gen_case(rng: &mut Rng, out: &mut Vec<String>, i: usize) {
         if !simple_involved && m > w && rng.chance(2, 3) {
             k = rng.below((m - w).clamp(1, 12) + 1);
         }
-        let mut t = mu::text(rng, &alpha, &p, k);
+        let band = !simple_involved && m > w && rng.chance(1, 2);
+        if band {
+            k = rng.below(4);
+        }
+        let mut t = if band { mu::band_text(rng, &alpha, &p, k, w) } else { mu::text(rng, &alpha, &p, k) };
         if !extra.is_empty() {
             for x in t.iter_mut() {
                 if rng.chance(1, 12) {
@@ -118,7 +122,7 @@ fn enum_seqs(alpha: &[u8], maxlen: usize, minlen: usize) -> Vec<Vec<u8>> {
 }
 
 pub fn gen(tier: &str, rng: &mut Rng, out: &mut Vec<String>) {
-    let n = if tier == "thorough" { 150_000 } else { 5_000 };
+    let n = if tier == "thorough" { 200_000 } else { 5_000 };
     for i in 0..n {
         gen_case(rng, out, i);
     }
